@@ -57,5 +57,36 @@ func registerEnvIntrinsics(I map[string]Intrinsic) {
 		t := g.vm.lookupType("context", "backgroundCtx")
 		return Iface{T: t, V: zero(t)}
 	}
+	// gorilla/websocket and the HTTP upgrade are redirected to the harness package vws
+	const vwsPkg = "go.nanomsg.org/mangos/v3/zzverif/vws"
+	redirect := func(from, to string) {
+		I[from] = func(g *G, a []Value, pos token.Pos) Value {
+			p := g.vm.prog.ImportedPackage(vwsPkg)
+			if p == nil {
+				panic(unsupported("websocket use without the harness package vws"))
+			}
+			f := p.Func(to)
+			if f == nil {
+				panic(unsupported("vws redirect target missing: " + to))
+			}
+			g.vm.ex.stubsUsed[from+" -> vws."+to]++
+			return g.callSSA(f, a, nil, pos)
+		}
+	}
+	const gw = "github.com/gorilla/websocket"
+	redirect("(*"+gw+".Conn).ReadMessage", "ConnReadMessage")
+	redirect("(*"+gw+".Conn).WriteMessage", "ConnWriteMessage")
+	redirect("(*"+gw+".Conn).SetReadLimit", "ConnSetReadLimit")
+	redirect("(*"+gw+".Conn).Close", "ConnClose")
+	redirect("(*"+gw+".Conn).LocalAddr", "ConnLocalAddr")
+	redirect("(*"+gw+".Conn).RemoteAddr", "ConnRemoteAddr")
+	redirect("(*"+gw+".Conn).UnderlyingConn", "ConnUnderlyingConn")
+	redirect("(*"+gw+".Dialer).Dial", "DialerDial")
+	redirect("(*"+gw+".Upgrader).Upgrade", "UpgraderUpgrade")
+	redirect("net/http.Error", "HTTPError")
+	// routing inside net/http.ServeMux is outside every claim: registration is a no-op
+	I["(*net/http.ServeMux).Handle"] = func(g *G, a []Value, pos token.Pos) Value { return nil }
+	I["(*net/http.ServeMux).HandleFunc"] = func(g *G, a []Value, pos token.Pos) Value { return nil }
+	I["runtime.Callers"] = func(g *G, a []Value, pos token.Pos) Value { return mkInt(0) }
 	_ = types.Typ
 }
